@@ -30,7 +30,8 @@ were committed when the read started (`n.commit ≤ n2.handed`), the subscriptio
 fired. No further write is needed, whatever the type of the latest committed entries.
 Hypotheses: the process is not restarted while the read is in flight, and the
 ReadyTarget agrees with the FSM index at the scan (`Synced n1`, see `synced_by_strong_read`:
-guaranteed by the strong-read guard of `waitForLinearizableRead`). -/
+guaranteed by the strong-read guard of `waitForLinearizableRead`). This is the PARTIAL
+statement of `C38_full` (below), restricted by exactly these two hypotheses. -/
 theorem lin_read_completes_when_healthy (es es1 es2 : List Ev) :
     let n := run {} es
     let n1 := run n es1
@@ -102,13 +103,6 @@ theorem C38_full_witness : ¬ C38_full := by
   revert this
   decide
 
-/-- `lin_read_completes_when_healthy` is the partial statement: `C38_full` restricted to runs
-without a restart in flight and with the ReadyTarget in step with the FSM index -/
-theorem C38_partial (es es1 es2 : List Ev) (h1 : NoReopen es1) (h2 : NoReopen es2)
-    (hs : Synced (run (run {} es) es1)) (hh : (run {} es).commit ≤ (run (run (run {} es) es1) es2).handed) :
-    reached (run (run (run {} es) es1) es2) (targetAt (run (run {} es) es1) (run {} es).commit) = true :=
-  lin_read_completes_when_healthy es es1 es2 h1 h2 hs hh
-
 /-- Draining is exactly `commit - handed` FSM steps, each of them enabled, and it is all
 that a healthy leader needs: the read completes with no event other than the FSM
 goroutine catching up. -/
@@ -140,6 +134,58 @@ theorem wait_returns_ok_when_healthy (es es1 es2 : List Ev) (term : Nat) :
   simp only [waitLin, ne_eq, not_true_eq_false, if_false, Bool.not_true, Bool.false_eq_true]
   change reached n2 (targetAt n1 n.commit) = true at this
   rw [this]; rfl
+
+theorem run_append (n : Node) (a b : List Ev) : run n (a ++ b) = run (run n a) b := by
+  simp [run, List.foldl_append]
+
+theorem noReopen_append {a b : List Ev} (ha : NoReopen a) (hb : NoReopen b) : NoReopen (a ++ b) := by
+  intro e he li
+  rcases List.mem_append.1 he with h | h
+  · exact ha e h li
+  · exact hb e h li
+
+/-- **The whole function, with `Synced` DERIVED from the guard.** `waitForLinearizableRead` gets
+past its first guard only if `strongReadTerm` equals the current term; `strongReadTerm` is 0
+after `Open` and is otherwise written only after a strong read went through the log
+(`strongReadTerm_writers`), i.e. after the FSM of THIS process applied a command entry. So
+the history up to the commit-index read has the shape: anything (`es0`), then an FSM step
+that applies a command entry (the strong read), then anything without a restart (`esA`).
+From there on — scan after `esB`, decision after `es2`, no restart in flight — the call
+returns `ok` once the FSM has caught up with the commit index taken at the start. -/
+theorem wait_returns_ok_after_strong_read (es0 esA esB es2 : List Ev) (term : Nat) :
+    let m := run {} es0
+    let n := run (applyEv m .fsm) esA
+    let n1 := run n esB
+    let n2 := run n1 es2
+    Ev.fsm.enabled m = true → m.typeAt (m.handed + 1) = some (some .command) →
+    NoReopen esA → NoReopen esB → NoReopen es2 → n.commit ≤ n2.handed →
+    waitLin ⟨term, term, true, true, n, true, term, n1, n2⟩ = .ok := by
+  intro m n n1 n2 hen hc hA hB h2 hh
+  have hs : Synced n1 := by
+    have := synced_by_strong_read es0 (esA ++ esB) hen hc (noReopen_append hA hB)
+    rw [run_append] at this
+    exact this
+  -- `n` is a reachable state: the run of `es0 ++ [fsm] ++ esA`
+  have hn : n = run {} (es0 ++ [Ev.fsm] ++ esA) := by
+    simp only [n, m, run_append]; rfl
+  have := wait_returns_ok_when_healthy (es0 ++ [Ev.fsm] ++ esA) esB es2 term
+  simp only at this
+  rw [← hn] at this
+  exact this hB h2 hs hh
+
+/-- every writer of `strongReadTerm`: `Open` resets it, `Query` and `Request` store the term
+after a strong read went through `raft.Apply` — the premise of the derivation above -/
+theorem strongReadTerm_writers :
+    Gen.ReadPath.strongReadTermStores =
+      ["Open: s.strongReadTerm.Store(0)", "Query: s.strongReadTerm.Store(readTerm)",
+       "Request: s.strongReadTerm.Store(readTerm)"] := by decide
+
+/-- in the state of `C38_full_witness` (right after a restart) the real function does not wait at
+all: `strongReadTerm` is 0 and the term of a leader is not, so the read is upgraded -/
+theorem after_reopen_read_is_upgraded (le : LinEnv) (h0 : le.strongReadTerm = 0) (ht : le.readTerm ≠ 0) :
+    waitLin le = .strongNeeded := by
+  unfold waitLin
+  rw [if_pos (by rw [h0]; exact ht)]
 
 /-- The read never waits for more than the commit index it took, and never for an entry
 that is not a command: the target is a command entry at or below the read index, or
